@@ -10,7 +10,7 @@ Module F := Rodbus.Base.Frame.
 Module S := Rodbus.Base.ServerTypes.
 Import SystemServer SystemSpec.
 
-Definition bytes (l : list N) : Prop := Forall (fun x => (x < 256)%N) l.
+Notation bytes := Framing.bytes.
 
 Lemma bytes_firstn k a : bytes a -> bytes (firstn k a).
 Proof. unfold bytes. revert k; induction a as [|x a IH]; intros k Hb; destruct k; cbn; auto. inversion Hb; subst. constructor; auto. Qed.
